@@ -270,7 +270,7 @@ pub fn run(ctx: &RunCtx) -> i32 {
         min_cells: 30,
         exhaustive: false,
     };
-    let n = ctx.tier.sz(2000, 100_000);
+    let n = ctx.tier.sz(20_000, 2_000_000);
     let per = 50u64;
     let mut total = par_run(ctx.workers, n.div_ceil(per), |j, r| {
         let rt = new_runtime();
